@@ -10,6 +10,9 @@ Line protocol of the C20 model (one s-expression in, one out).
   STR   = atom, percent-encoded as in harness/common/sexp.py
 
   (vcs COM PRE POST)        -> (ok ACOM (E ...) (STR ...))   annotated command, VCs, printed VCs
+  (vcsh COM PRE POST)       -> (E ...)                        conditions of imp.vcg (no `== true` shortcut)
+  (wf E)                    -> (wfC wfA tyC tyA)              each T | F
+  (ws COM)                  -> T | F                          wsCom
   (pp E)                    -> STR
   (lexpp E)                 -> T | F        does `lex (pp E)` equal `toks E`
   (ppcom COM)               -> (STR ...)                      lines of print_com
@@ -134,6 +137,18 @@ def handle (line : String) : String :=
       let vcs := getVcs a
       toString (Sexp.list [.atom "ok", acomTo a, exprsTo vcs, .list (vcs.map fun v => .atom (enc (pp v)))])
     | _, _, _ => "bad-op"
+  | some (.list [.atom "vcsh", c, p, q]) =>
+    match comOf c, exprOf p, exprOf q with
+    | some c, some p, some q => toString (exprsTo (vcsH p c q))
+    | _, _, _ => "bad-op"
+  | some (.list [.atom "wf", e]) =>
+    match exprOf e with
+    | some e => toString (Sexp.list [Sexp.ofBool (wfC e), Sexp.ofBool (wfA e), Sexp.ofBool (tyC e), Sexp.ofBool (tyA e)])
+    | none => "bad-op"
+  | some (.list [.atom "ws", c]) =>
+    match comOf c with
+    | some c => toString (Sexp.ofBool (wsCom c))
+    | none => "bad-op"
   | some (.list [.atom "pp", e]) =>
     match exprOf e with
     | some e => enc (pp e)
